@@ -21,12 +21,12 @@ def _reader_kind(call, helpers):
     accepts serde's empty vector."""
     m = re.search(r"\b(beve::read_typed_slice|beve::read_complex_slice|read_typed_slice_body|read_complex_slice_body)\b", call)
     if not m:
-        raise ExtractError(f"bulk reader not recognised in `{call}`")
+        return "unknown"
     name = m.group(1)
     if name.startswith("beve::"):
         return "plain"
     if name not in helpers:
-        raise ExtractError(f"helper {name} not recognised")
+        return "unknown"
     return "empty_ok"
 
 
@@ -84,7 +84,12 @@ def beve_facts():
 
 
 def extract():
+    """Functions that cannot be found at all raise ExtractError (whole fallback to the committed facts: a
+    moved / renamed anchor is not an alarm).  A function that is found but whose form *at the spot the
+    property depends on* is not one of the recognised ones is recorded in `unrecognised` (the theorem
+    `anchors_recognised` then fails) and the committed value is used for that fact."""
     facts = {}
+    unrec = []
     try:
         facts["beve"] = beve_facts()
         facts["beveSource"] = "read"
@@ -114,8 +119,8 @@ def extract():
              r"\} else \{ Ok\(SliceInput::Owned\((?P<reader>[\w:]+)::<T>\(body\)\?\)\) \}")
     m = re.fullmatch(shape, body)
     if not m:
-        raise ExtractError("decode_typed_slice_ref_body: form not recognised")
-    ref_reader = m.group("reader")
+        unrec.append("decode_typed_slice_ref_body")
+    ref_reader = m.group("reader") if m else None
 
     # ---- helpers that also accept the empty generic array
     helpers = set()
@@ -127,7 +132,7 @@ def extract():
         if mc and re.fullmatch(r"if body == BEVE_EMPTY_GENERIC_ARRAY \{ return Ok\(Vec::new\(\)\); \} beve::" + prim + r"\(body\)", hb):
             helpers.add(name)
         else:
-            raise ExtractError(f"{name}: form not recognised")
+            unrec.append(name)
 
     # ---- Message::decode_typed_slice / decode_complex_slice
     imp = impl_block(msg, r"impl Message\s*\{")
@@ -139,14 +144,16 @@ def extract():
         elif len(st) == 1:
             guards[key] = False
         else:
-            raise ExtractError(f"{fn}: statements not recognised: {st}")
+            unrec.append(fn + ": statements")
+            guards[key] = True
         m = re.fullmatch(r"Ok\(([\w:]+)\(&self\.body\)\?\)", st[-1])
         if not m:
-            raise ExtractError(f"{fn}: result expression `{st[-1]}`")
-        readers.append(_reader_kind(m.group(1), helpers))
+            unrec.append(fn + ": result expression")
+        else:
+            readers.append(_reader_kind(m.group(1), helpers))
     rb = " ".join(fn_body(imp, "require_body_format").split())
-    if not re.fullmatch(r"if self\.header\.body_format == expected as u16 \{ Ok\(\(\)\) \} else \{ Err\(RepeError::UnexpectedBodyFormat \{ expected, got: self\.header\.body_format, \}\) \}", rb):
-        raise ExtractError("require_body_format: form not recognised")
+    if not re.fullmatch(r"if (self\.header\.body_format == expected as u16|expected as u16 == self\.header\.body_format|self\.header\.body_format == u16::from\(expected\)) \{ Ok\(\(\)\) \} else \{ Err\(RepeError::UnexpectedBodyFormat \{ expected, got: self\.header\.body_format,? \}\) \}", rb):
+        unrec.append("require_body_format")
     facts.update(guards)
 
     # ---- server-side format gates
@@ -166,30 +173,55 @@ def extract():
             if m2:
                 readers.append(_reader_kind(m2.group(1), helpers))
         else:
-            raise ExtractError(f"{fn}: format gate not recognised")
+            unrec.append(fn + ": format gate")
+            gates.append(True)
     if len(set(gates)) != 1:
-        raise ExtractError("server format gates differ between the three decoders")
-    facts["serverGuards"] = gates[0]
-    readers.append(_reader_kind(ref_reader, helpers))
-    if len(set(readers)) != 1:
-        raise ExtractError(f"bulk decoders disagree on the reader they call: {readers}")
-    facts["emptyGeneric"] = readers[0] == "empty_ok"
+        unrec.append("server format gates differ between the three decoders")
+    facts["serverGuards"] = all(gates)
+    if ref_reader is not None:
+        readers.append(_reader_kind(ref_reader, helpers))
+    if "unknown" in readers or len(set(readers)) != 1:
+        unrec.append(f"bulk decoders: readers {sorted(set(readers))}")
+    facts["emptyGeneric"] = bool(readers) and all(r == "empty_ok" for r in readers)
+
+    # ---- the two route handlers: decode through the gate, call the closure once, frame with the bulk builder
+    def norm(t): return " ".join(t.split())
+    want = {
+        ("TypedSliceHandler", "handle"): "let input: Vec<T> = match decode_typed_slice_param(req)? { Ok(v) => v, Err(err) => return Ok(err), }; match (self.0)(input) { Ok(out) => Ok(create_typed_slice_response_unstamped(req, &out)), Err((code, msg)) => Ok(create_error_response_like(req, code, msg)), }",
+        ("TypedSliceHandler", "handle_view"): "let input: Vec<T> = match decode_typed_slice_param_view(view)? { Ok(v) => v, Err(err) => return Ok(err), }; match (self.0)(input) { Ok(out) => Ok(create_typed_slice_response_unstamped_view(view, &out)), Err((code, msg)) => Ok(create_error_response_unstamped_view(view, code, msg)), }",
+        ("TypedSliceRefHandler", "handle"): "let input = match decode_typed_slice_ref_param::<T>(req.header.body_format, &req.body, || { create_error_response_like( req, ErrorCode::InvalidBody, \" \", ) })? { Ok(v) => v, Err(err) => return Ok(err), }; match (self.0)(input.as_slice()) { Ok(out) => Ok(create_typed_slice_response_unstamped(req, &out)), Err((code, msg)) => Ok(create_error_response_like(req, code, msg)), }",
+        ("TypedSliceRefHandler", "handle_view"): "let input = match decode_typed_slice_ref_param::<T>(view.header.body_format, view.body, || { create_error_response_unstamped_view( view, ErrorCode::InvalidBody, \" \", ) })? { Ok(v) => v, Err(err) => return Ok(err), }; match (self.0)(input.as_slice()) { Ok(out) => Ok(create_typed_slice_response_unstamped_view(view, &out)), Err((code, msg)) => Ok(create_error_response_unstamped_view(view, code, msg)), }",
+    }
+    for (ty, fn), shape in want.items():
+        ib = impl_block(srv, r"impl<T, R, F> HandlerErased for " + ty + r"<T, R, F>")
+        got = norm(fn_body(ib, fn))
+        got = re.sub(r'"\s*"', '" "', got)
+        if got != shape:
+            unrec.append(f"{ty}::{fn}")
 
     # ---- base offset of the aligned body
     bi = impl_block(msg, r"impl MessageBuilder\s*\{")
     ab = fn_body(bi, "body_aligned_typed_slice")
-    m = re.search(r"let base_offset\s*=([^;]*);", ab)
-    if not m:
-        raise ExtractError("body_aligned_typed_slice: `let base_offset = …`")
-    terms = []
-    for t in [" ".join(x.split()) for x in m.group(1).split("+")]:
-        if t == "HEADER_SIZE": terms.append("header")
-        elif t == "self.query.len()": terms.append("query")
-        elif re.fullmatch(r"\d+", t): terms.append(int(t))
-        else: raise ExtractError(f"base_offset summand `{t}`")
     flat = " ".join(ab.split())
-    if "beve::write_aligned_typed_slice_at(&mut body, slice, base_offset);" not in flat:
-        raise ExtractError("body_aligned_typed_slice: writer call not recognised")
+    terms = None
+    mw = re.search(r"beve::write_aligned_typed_slice_at\(&mut (\w+), slice, ([^;]*)\);", flat)
+    if mw:
+        expr = mw.group(2).strip()
+        if re.fullmatch(r"\w+", expr) and not re.fullmatch(r"\d+|HEADER_SIZE", expr):
+            ml = re.search(r"let " + expr + r"(?:\s*:\s*usize)?\s*=([^;]*);", flat)
+            expr = ml.group(1).strip() if ml else None
+        if expr is not None:
+            terms = []
+            for t in [" ".join(x.split()) for x in expr.split("+")]:
+                if t in ("HEADER_SIZE", "crate::constants::HEADER_SIZE"): terms.append("header")
+                elif t in ("self.query.len()", "self.query.as_slice().len()"): terms.append("query")
+                elif re.fullmatch(r"\d+", t): terms.append(int(t))
+                else:
+                    terms = None
+                    break
+    if terms is None:
+        unrec.append("body_aligned_typed_slice: base offset")
+        terms = ["header", "query"]
     facts["baseTerms"] = terms
 
     # ---- response side
@@ -199,7 +231,8 @@ def extract():
     elif any("body_typed_slice" not in b for b in rb):
         facts["respBulk"] = False
     else:
-        raise ExtractError("create_typed_slice_response_unstamped: form not recognised")
+        unrec.append("create_typed_slice_response_unstamped")
+        facts["respBulk"] = True
 
     # ---- client entry points (pessimistic on anything that is not the recognised order / helper)
     for key, file, imp_re in (("syncClient", "src/client.rs", r"impl Client\s*\{"), ("asyncClient", "src/async_client.rs", r"impl AsyncClient\s*\{")):
@@ -208,7 +241,7 @@ def extract():
         cb = " ".join(fn_body(imp, "call_with_body_and_timeout").split())
         iq, ib = cb.find(".query_str("), cb.find("body_fn(")
         if iq < 0 or ib < 0:
-            raise ExtractError(f"{file}: call_with_body_and_timeout: builder steps not found")
+            unrec.append(f"{file}: call_with_body_and_timeout: builder steps")
         # the query is on the builder when the body closure runs only if it is set textually first and
         # the closure is applied to that builder
         qfirst = iq < ib and re.search(r"body_fn\(builder\)", cb) is not None
@@ -217,17 +250,21 @@ def extract():
             hb = " ".join(fn_body(imp, h).split())
             m = re.search(r"\|builder\| Ok\(builder\.(body_typed_slice|body_aligned_typed_slice)\(body\)\)", hb)
             if not m:
-                raise ExtractError(f"{file}: {h}: closure not recognised")
+                unrec.append(f"{file}: {h}: closure")
+                helper_form[h] = "aligned" if "aligned" in h else "regular"
+                continue
             helper_form[h] = "aligned" if m.group(1) == "body_aligned_typed_slice" else "regular"
         def entry(fn):
             eb = " ".join(fn_body(imp, fn).split())
             m = re.search(r"self\s*\.\s*(call_typed_slice(?:_aligned)?_with_optional_timeout)\(", eb)
             if not m:
-                raise ExtractError(f"{file}: {fn}: helper call not recognised")
+                unrec.append(f"{file}: {fn}: helper call")
+                return "aligned" if "aligned" in fn else "regular"
             return helper_form[m.group(1)]
         facts[key] = {"queryFirst": qfirst,
                       "bulkPlain": entry("call_typed_slice"), "bulkTimeout": entry("call_typed_slice_with_timeout"),
                       "alignedPlain": entry("call_typed_slice_aligned"), "alignedTimeout": entry("call_typed_slice_aligned_with_timeout")}
+    facts["unrecognised"] = unrec
     return facts
 
 
@@ -249,7 +286,8 @@ def render(f):
          f"    emptyGeneric := {b(f['emptyGeneric'])},",
          f"    respBulk := {b(f['respBulk'])},",
          f"    syncClient := {client(f['syncClient'])},",
-         f"    asyncClient := {client(f['asyncClient'])} }}",
+         f"    asyncClient := {client(f['asyncClient'])},",
+         "    unrecognised := [" + ", ".join('"' + u.replace('"', "'") + '"' for u in f["unrecognised"]) + "] }",
          "def beveFacts : BeveFacts :=",
          "  { " + ", ".join(f"{k} := {f['beve'][k]}" for k in ("typeTypedArray", "typeGenericArray", "typeExtension", "extComplex", "arrayFloat", "arraySigned", "arrayUnsigned", "arrayBoolOrString", "alignedDiscriminator")) + ",",
          "    sizeThresholds := " + str(f["beve"]["sizeThresholds"]).replace(" ", "") + ",",
